@@ -594,6 +594,27 @@ func (p *Proc) evalLoc(ec *ectx, e ast.Expr) []loc {
 		if id, ok := x.Fun.(*ast.Ident); ok && id.Name == "alloc" {
 			return []loc{{key: "AL:", sort: ArrSort(SInt, SBool)}}
 		}
+		if id, ok := x.Fun.(*ast.Ident); ok && id.Name == "elemsof" {
+			// the contents of every slice or map of the given type
+			t := p.resolveType(ec, x.Args[0])
+			if t == nil {
+				p.failf(e, "%s: elemsof(): unknown type", ec.where)
+			}
+			switch ut := t.Underlying().(type) {
+			case *types.Map:
+				id, _, _ := p.mapKeys(ut)
+				return []loc{{key: "$pfx:MD:" + id, sort: SBool}, {key: "$pfx:MV:" + id, sort: SBool}, {key: "$pfx:MC:" + id, sort: SBool}}
+			case *types.Slice:
+				return []loc{{key: "$pfx:" + p.sliceHeapKey(ut.Elem()), sort: SBool}}
+			}
+			p.failf(e, "%s: elemsof() needs a slice or map type", ec.where)
+		}
+		if id, ok := x.Fun.(*ast.Ident); ok && id.Name == "cachecontainers" {
+			// the containers owned by the cache: work queues, the index, subscriber sets, query maps, link lists
+			return []loc{{key: "$pfx:SH:func()", sort: SBool}, {key: "$pfx:~rescache.EventSubscription", sort: SBool},
+				{key: "$pfx:~rescache.ResourceSubscription", sort: SBool}, {key: "$pfx:~rescache.Subscriber", sort: SBool},
+				{key: "$pfx:~rescache.Conn", sort: SBool}, {key: "$pfx:SH:Str", sort: SBool}}
+		}
 		if id, ok := x.Fun.(*ast.Ident); ok && id.Name == "funcqueues" {
 			// the contents of every []func() (work queues)
 			return []loc{{key: "$pfx:SH:func()", sort: SBool}}
@@ -605,7 +626,7 @@ func (p *Proc) evalLoc(ec *ectx, e ast.Expr) []loc {
 		if id, ok := x.Fun.(*ast.Ident); ok && id.Name == "pkgstate" {
 			// every field of every struct type declared in the named package
 			pn := x.Args[0].(*ast.Ident).Name
-			return []loc{{key: "$pfx:F:S_" + pn + "_", sort: SBool}, {key: "$pfx:~" + pn + ".", sort: SBool}}
+			return []loc{{key: "$pfx:F:S_" + pn + "_", sort: SBool}}
 		}
 	}
 	p.failf(e, "%s: unsupported assigns entry", ec.where)
